@@ -47,6 +47,9 @@ CHECKS = {
  "C14": ("reference-model monitor: generic-width conversions vs the generic oracle, all 31x31 width pairs",
          "float, integer, fixed-width-posit, Q32E2 and generic-to-generic conversions (all 961 width pairs x 3 directions, every spelling) compared with the exact / correctly rounded oracle value for the target (n,es); exhaustive when the source has <= 16 bits, hostile samples otherwise.",
          "§6 C14"),
+ "C15": ("two-stage reference-model monitor: glibc libm filter (under-estimating) + mpmath arbiter for suspects",
+         "each P32E2 elementary function is run inside the domain the crate states for it; stage 1 measures the distance of the result's encoding from the interval of encodings that are correct roundings of libm's value +-2^-45 (it can only under-estimate the error); every case over the stated ULP bound, every NaR/real mismatch and a sample of passing cases go to an mpmath arbiter (300 bits, exact rational special cases, saturating posit semantics) which alone can confirm a violation. quick: 2^22 inputs + argument-reduction / power-of-two / domain-end landmarks per function; thorough: every 16th pattern of each unary domain, 2^29 pairs per binary function.",
+         "§6 C15"),
  "C16": ("totality + differential monitor: op catalogue in overflow-checked and optimised builds, heartbeat watchdog, Miri",
          "every registered public operation that is not an explicit todo!() stub (about 6700 entries: fixed types, all 62 generic instantiations, all 961 x 3 width pairs, quires, polynomials, linalg / simba / approx impls, every spelling) is run on one deterministic input list (cross product of type extremes + hostile tuples) in a release build (overflow-checks off), a 'checked' build (overflow-checks + debug-assertions on) and, in thorough, a dev build; any panic (arithmetic / shift overflow, index, assert), any call that does not return within 20 s (confirmed in a fresh process) and any difference of result bits between builds is a violation. Miri interprets a reduced catalogue (quick: the ops that reach the crate's unsafe code; thorough: every op, 33 processes).",
          "§6 C16"),
@@ -59,13 +62,14 @@ CHECKS = {
  "C19": ("invariant monitor on steered and seeded generator streams",
          "every value of every gen_range the three Distribution impls call is forced through a steered RngCore (P8: all 64, P16: all 2^18, P32: all 2^27 x 4 in thorough, a seed-rotated 1/32 in quick; the steering itself is self-checked on every run) and long seeded streams are drawn; each sample must be a real posit with 0 <= p < 1 by the exact order, without panicking; evidence counts the distinct sample values observed.",
          "§6 C19"),
+ "C11": ("reference-model monitor: exhaustive comparison with committed mpmath tables (re-derived on every run)",
+         "all 2^16 P16E1 inputs of exp, exp2, ln, log2, sin_pi, cos_pi, tan_pi, asin_pi, acos_pi, atan_pi and all 2^8 P8E0 inputs of exp, ln are run on the real crate and compared with correctly rounded reference tables (655 872 results, exhaustive in both tiers). The tables are generated by tools/gen_tables.py with mpmath at 400 bits, rational results from an exact-case table, Ziv-style margin check (no undecided entry); their sha256 is verified on every run, quick re-derives a seed-chosen 2 % at 320 bits, thorough regenerates everything and demands byte equality.",
+         "§6 C11"),
  "C12": ("history monitor + exhaustive round trip: state operations judged against the decoded actual state",
          "p -> quire -> p round trip (value, and the quire's exact fixed-point image) exhaustively for P8/P16 (P32: all 2^32 in thorough); neg/clear/from_bits(to_bits)/into_two_posits/into_three_posits judged on every state reached by generated accumulate histories, relative to the exact value decoded from the quire's actual bit image.",
          "§6 C12"),
 }
 NOT_YET = {
- "C11": "monitor not built yet in this round (planned: exhaustive comparison with committed mpmath tables, DESIGN §6 C11)",
- "C15": "monitor not built yet in this round (planned: libm filter + mpmath arbiter, DESIGN §6 C15)",
 }
 NOTE = ("trusted: rustc/LLVM + CPU for the harness' integer code; the exact-arithmetic oracle (harness/src/big.rs, val.rs, fast.rs; "
         "two independent encoders and a u128 fast path cross-checked on every run, every candidate violation re-judged by the slow BigUint path); "
@@ -109,6 +113,6 @@ def main():
     }
     json.dump(m, open(os.path.join(HERE, "MANIFEST.json"), "w"), indent=1)
 
-EXTRA_NOTE = {"C16": "; termination is decided as returns within 20 s (bounded progress); todo!() panics count as stubs only when they come from a (file, function) pair listed in tools/stubs.json; build-profile independence is checked for the profiles named, on this compiler and CPU"}
+EXTRA_NOTE = {"C11": "; additionally trusted: mpmath 1.3 (python3-vt) for the transcendental values, the exact-case table for rational results", "C15": "; additionally trusted: mpmath 1.3 for every confirmed violation; glibc libm only as a filter (it can hide, never create, a violation); one open known finding KF-C15-powf (error ceiling 6 ulp)", "C16": "; termination is decided as returns within 20 s (bounded progress); todo!() panics count as stubs only when they come from a (file, function) pair listed in tools/stubs.json; build-profile independence is checked for the profiles named, on this compiler and CPU"}
 if __name__ == "__main__":
     main()
